@@ -11,35 +11,42 @@ PROP = "C11"
 
 TRUSTED = [
     "Coq 8.16.1 kernel (coqc), vm_compute for case evaluation; no native_compute",
-    "hand-written byte-level model props/C11/coq/Model.v of the keyword/text/path tokenizers, toLowerTryInplace,"
-    " parseSeqQLKeyword/parseSeqQLText, strings.ToLower/bytes.Map, utf8.DecodeRune/AppendRune"
-    " (tied to /repo by the correspondence run, not verified code)",
+    "hand-written byte-level model props/C11/coq/Model.v + ModelDoc.v: keyword/text/path tokenizers, toLowerTryInplace,"
+    " indexer.Index/decodeInternal/decodeTags/index over an abstract JSON tree (in-place lower-casing threaded from one"
+    " title of a multi-type field to the next), parseSeqQLKeyword/parseSeqQLText, the legacy keyword/text token"
+    " builders, strings.ToLower/bytes.Map, utf8.DecodeRune/AppendRune (tied to /repo by the correspondence run)",
     "props/C11/coq/Consts.v: unicode.IsLetter/IsNumber/ToLower of the Go toolchain, dumped by `hC11 -consts`"
     " on every run (data, not axioms; the oracle hypotheses of the theorems are re-proved over it by vm_compute)",
-    "Go harness harness/cmd/hC11 (generators, quoting functions for the five literal styles, rendering of"
-    " observations); export file /repo/proxy/bulk/export_verif_c11.go",
-    "SeqQL lexer (unquoting) and JSON unescaping: NOT modelled; each quoting style is validated on the real lexer by"
-    " the cases (the model starts from the unquoted string)",
-    "document flattening (decodeInternal/index: dotted names inside objects, multi-type titles) is driven on the real"
-    " bulk processor and checked directly (every present mapped field has its _exists_ token, no other), not"
-    " modelled in Coq; tags/nested arrays, the legacy ParseQuery builders and end-to-end search are not covered",
+    "Go harness harness/cmd/hC11 (generators, quoting functions for the five SeqQL literal styles and the two legacy"
+    " ones, rendering of observations); export file /repo/proxy/bulk/export_verif_c11.go",
+    "SeqQL lexer / legacy quoted-term scanner (unquoting) and insaneJSON (decoding, unescaping, Encode of containers):"
+    " NOT modelled; every quoting style is validated on the real parsers by the cases, the JSON tree given to the"
+    " model is the one insaneJSON decodes",
+    "end-to-end search (tests/setup single-mode ingestor + store, both parsers) is a per-run sample with a negative"
+    " control: a test, not a proof",
 ]
 ASSUME = [
     "case-sensitive mode: the keyword/path value (or its partial-indexing cut prefix) is valid UTF-8"
-    " (otherwise the known finding cs-invalid-utf8: index keeps raw bytes, query side re-encodes them as U+FFFD)",
+    " (otherwise the known finding cs-invalid-utf8: index keeps raw bytes, both query parsers re-encode them as U+FFFD)",
+    "multi-type fields, case-insensitive mode, titles after the first: the theorem speaks about the value as that"
+    " title's tokenizer sees it (after earlier in-place lower-casing); invariance of its tokens under that"
+    " lower-casing is checked by the correspondence run only (named gap C11_multitype_later_titles)",
     "the matcher is read at specification level (literal = equality, wildcard = ordered substrings); pattern.go"
     " itself is property C13",
 ]
 RULE = ("random values over ASCII word/separator/quote characters, letters and numbers of all scripts, upper-case runes"
         " whose lower case has the same / another UTF-8 width, invalid byte sequences (lone continuation, overlong,"
         " surrogate, truncated, > U+10FFFF), U+FFFD, U+E000; x keyword/text/path x case-sensitive on/off x partial"
-        " indexing on/off x small and default size limits x five quoting styles. For every value: the real tokenizer's"
-        " tokens, and for every query the property names (whole value / each word / each leading path of the indexed"
-        " part) the real ParseSeqQL literals and the real pattern.Search verdict. non-trivial = value has a non-ASCII"
-        " byte, an upper-case letter, a quote/backslash/'*'/'_'/'/' or is cut by a size limit, is not skipped and"
-        " yields at least one query; distinct by input. Plus free query cases (unescaped wildcards, U+E000) and"
-        " documents with flat, object and multi-type fields through the real bulk processor: `_exists_:<title>`"
-        " queried with the parser in case-insensitive mode")
+        " indexing on/off x small and default size limits x SeqQL (five quoting styles) or legacy ParseQuery (quoted /"
+        " bare). For every value: the real tokenizer's tokens, and for every query the property names (whole value /"
+        " each word / each leading path of the indexed part) the real parser's literals and the real pattern.Search"
+        " verdict. Free SeqQL query cases (unescaped wildcards, U+E000). Random mappings + nested documents (objects,"
+        " tag arrays, nested arrays, multi-type fields, type/value mismatches, tags without value) through the real bulk"
+        " processor: all metas compared with the model, `_exists_:<title>` queried with the parser in case-insensitive"
+        " mode. End to end: documents through a real ingestor + store, every named query through both parsers must"
+        " return the document. non-trivial = value has a non-ASCII byte, an upper-case letter, a"
+        " quote/backslash/'*'/'_'/'/' or is cut by a size limit, is not skipped and yields at least one query /"
+        " document with a container field and more than 3 tokens; distinct by input")
 
 
 def harness_args(tier, seed, outdir):
